@@ -17,7 +17,7 @@ import (
 
 type scenIn struct {
 	Scenario
-	Mode  string `json:"mode"`  // fault | crash
+	Mode  string `json:"mode"`  // fault | crash | once | burst
 	Every int    `json:"every"` // use every n-th placement (1 = all)
 }
 
@@ -95,6 +95,13 @@ func TestClusterFaults(t *testing.T) {
 			g.obs = env.c13Observer(in.Op.App, nodes)
 		}
 		g.Reset(failAt, crashAt)
+		if in.Mode == "burst" {
+			// no serialisation, and the instances' last external call of the creation (the commit of their recovery-log
+			// entry) completed at the same moment: their creation messages reach the caller back to back
+			g.Free, g.Bar = true, NewBarrier("wal.Commit", in.Op.Count)
+			g.Bar.After = true
+			defer func() { g.Free, g.Bar = false, nil }()
+		}
 		if crashAt != 0 {
 			crashed := make(chan struct{})
 			g.onCrash = func() { close(crashed) }
@@ -165,6 +172,12 @@ func TestClusterFaults(t *testing.T) {
 			return
 		}
 		if in.Mode == "once" {
+			return
+		}
+		if in.Mode == "burst" {
+			for i := 0; i < 5; i++ {
+				one(&in, 0, 0)
+			}
 			return
 		}
 		for k := 1 + (vt.EnvInt("VERIF_SEED", 1) % in.Every); ; k += in.Every {
